@@ -31,7 +31,9 @@ THEOREMS = {
     "C09": ("TrVerif.Props.NonVacuity", ["Tr.C07_scan_start", "Tr.C09_sound", "Tr.C09_complete", "Tr.C09_latest", "Tr.reverseNode_sound", "Tr.collectNodes_sorted", "Tr.collectNodes_mem",
                                          "Tr.revScanList_RC", "Tr.revStep_RC", "Tr.init_RC", "Tr.RW_dataset", "Tr.revIndex_spec",
                                          "Tr.nv_hypotheses", "Tr.nv_hypotheses_reverse", "Tr.nv_results"]),
-    "C10": ("TrVerif.Props.C10", ["Tr.C10_alternatives"]),
+    "C10": ("TrVerif.Props.NonVacuity", ["Tr.C10_alternatives", "Tr.C10_no_better_forward", "Tr.C10_no_better_reverse", "Tr.C10_alt_times", "Tr.alternatives_from", "Tr.altLoop_from",
+                                         "Tr.calcWith_attained_fwd", "Tr.calcWith_attained_rev", "Tr.AdmFwd.ctxLe", "Tr.AdmRev.ctxLe", "Tr.C03_optimal", "Tr.C04_optimal", "Tr.C01_with",
+                                         "Tr.nv_hypotheses", "Tr.nv_hypotheses_complete", "Tr.nv_results"]),
     "C11": ("TrVerif.Props.C11", ["Tr.C11_connSet", "Tr.C11_restrict", "Tr.C11_answers", "Tr.C11_route"]),
     "C13": ("TrVerif.Props.C13", ["Tr.C13_history_independent", "Tr.C13_cache_kind_irrelevant", "Tr.C13_structure"]),
     "C14": ("TrVerif.Props.C14", ["Tr.C14_interleavings", "Tr.C14_progress", "Tr.C14_structure"]),
@@ -132,10 +134,16 @@ _reg("C09", "PROOF (full, over the model, on the property's own domain - in fact
      "router lists each stop once, request time >= 0 (satisfiable: Tr.nv_hypotheses*). Proved by a soundness and a completeness invariant of the reverse scan (Tr.revStep_inv, Tr.revStep_RC) and the "
      "transparency of the reverse hour index (Tr.revIndex_spec). " + _M + "; the brute-force reference solver is still run on every answer.",
      "Lean 4 theorems (soundness + completeness invariants of the reverse scan, hour-index transparency) + differential correspondence + reference solver")
-_reg("C10", "PROOF (partial): Tr.C10_alternatives - same success/failure and reason as without alternatives, routes[0] is the plain answer, pairwise distinct "
-     "sorted line lists, at most 50 routes and totalRoutesCalculated >= their number; validity of each further route is Tr.C01_with. 'No better than "
-     "routes[0]' needs the optimality theorems and is decided per answer by the oracle. " + _M + ".",
-     "Lean 4 theorem (partial) + differential correspondence + executable oracle")
+_reg("C10", "PROOF (over the model; clause (c) partly): Tr.C10_alternatives - (a) same success/failure and reason as without alternatives, (b) routes[0] is the plain answer, (d) pairwise distinct "
+     "sorted line lists, (f) at most 50 routes and totalRoutesCalculated >= their number, for ALL datasets and queries. (e) Tr.C10_no_better_forward / Tr.C10_no_better_reverse - on the domains of "
+     "C03 / C04 no route of the answer arrives earlier / departs later than routes[0]: every further route is the answer of a recalculation with more excluded lines and the reduced max_travel_time "
+     "(Tr.alternatives_from, loop invariant Tr.altLoop_from), hence an admissible journey of that recalculation (attainment, Tr.calcWith_attained_*), hence - excluding fewer lines and allowing a longer "
+     "journey keeps it admissible (Tr.AdmFwd.ctxLe / Tr.AdmRev.ctxLe) - an admissible journey of the original query, which routes[0] is optimal among (Tr.C03_optimal / Tr.C04_optimal). "
+     "(c) Tr.C01_with - every further route is a ValidItinerary; Tr.C10_alt_times - every route keeps the ORIGINAL query's time limits (not before the requested departure, within max_travel_time "
+     "of it / not after the requested arrival, within max_travel_time before it, not before 0:00) although it was calculated with another max_travel_time; C06 holds of every emitted route value "
+     "(Tr.C06_totals). NOT a theorem: the walk maxima and the first-waiting cap of C02 for the further routes (same parameters as the original query in every recalculation; checked on every "
+     "answer by the oracle). " + _M + ".",
+     "Lean 4 theorems (loop invariants, attainment + monotonicity of admissibility, optimality of routes[0]) + differential correspondence + executable oracle")
 _reg("C11", "PROOF (full, over the model): Tr.C11_answers / Tr.C11_route - route, alternatives and accessibility answers under a restricting scenario equal the answers "
      "under the all-inclusive scenario on the dataset with the excluded trips removed (filter commutes with both stable sorts; the calculation reads trips only "
      "through the connection set). " + _M + "; the metamorphic relation is also run on the implementation with physically deleted trips.",
